@@ -16,6 +16,7 @@ use crate::sim::{
     e2e::{self, ConnPlan, RunResult, Scenario},
 };
 
+pub const F27_SIG: &str = "C02/delivered-repeatedly-but-discarded";
 pub const F8_SIG: &str = "C02/zero-window-reopen-lost";
 pub const F11_SIG: &str = "C02/precut-segment-exceeds-window";
 
@@ -270,6 +271,40 @@ fn classify_stall(res: &RunResult) -> String {
     for (key, w) in &last_delivered {
         if *w == 0 && last_emitted.get(key).is_some_and(|e| *e > 0) {
             return F8_SIG.to_string();
+        }
+    }
+    // F27: the receiver keeps discarding packets that the network delivered. After a timeout the sender resends its
+    // whole flight (go-back-N); a receiver whose reassembly queue has only a few slots (receive buffer / largest
+    // payload) drops what arrives more than that many packets ahead although it fits the advertised byte window;
+    // every resend counts against the retransmission limit. Signature: some data packet was delivered at least three
+    // times while the receiver's acknowledgements had not reached it yet.
+    {
+        #[derive(Default)]
+        struct Dir { acked: Option<u16>, ahead_deliveries: std::collections::BTreeMap<u16, u32> }
+        let mut evs: Vec<(u64, usize, bool, std::net::SocketAddr, std::net::SocketAddr, u16, u16)> = vec![]; // (t, idx, is_ack_emission, src, dst, id, number)
+        for r in &res.log {
+            let Some(p) = &r.pkt else { continue };
+            if p.ptype == refparse::ST_SYN { continue; }
+            // every emitted datagram carries the emitter's cumulative ack (for the opposite direction)
+            evs.push((r.t_us, r.idx, true, r.src, r.dst, p.conn_id, p.ack));
+            if p.ptype == refparse::ST_DATA {
+                if let Disposition::Deliver(ts) = &r.disp { for t in ts { evs.push((*t, r.idx, false, r.src, r.dst, p.conn_id, p.seq)); } }
+            }
+        }
+        evs.sort();
+        let mut dirs: std::collections::BTreeMap<(std::net::SocketAddr, std::net::SocketAddr), Dir> = Default::default();
+        for (_, _, is_ack, src, dst, _id, n) in evs {
+            if is_ack {
+                // src acknowledges data flowing dst -> src
+                dirs.entry((dst, src)).or_default().acked = Some(n);
+            } else {
+                let d = dirs.entry((src, dst)).or_default();
+                if d.acked.is_some_and(|a| crate::model::seq::dist(n, a) > 0) {
+                    let c = d.ahead_deliveries.entry(n).or_default();
+                    *c += 1;
+                    if *c >= 3 { return F27_SIG.to_string(); }
+                }
+            }
         }
     }
     "lossy/stalled-or-failed".to_string()
